@@ -302,5 +302,5 @@ def subchecks(tier, seed):
     return [
         SubCheck("lookup", body_lookup, cases=cases_lookup(), exhaustive=True, shards=16),
         SubCheck("build", body_build, cases=cases_build(tier, seed), exhaustive=(tier == "thorough"), shards=32),
-        SubCheck("sequences", body_seq, strategy=_seq_strategy(), examples=1500 if tier == "quick" else 20000, shards=16),
+        SubCheck("sequences", body_seq, strategy=_seq_strategy(), examples=1500 if tier == "quick" else 100000, shards=32),
     ]
